@@ -39,6 +39,18 @@ Fill(t) == /\ val[t] # 0 /\ PushImpl = "find_then_fill" /\ cur[t] <= MaxCells
                    /\ lost' = lost \cup {val[t]} /\ refs' = [refs EXCEPT ![t] = Append(@, <<val[t], cur[t]>>)] /\ UNCHANGED cell
            /\ val' = [val EXCEPT ![t] = 0] /\ UNCHANGED cur
 ChInternal(t) == TryInsert(t) \/ Find(t) \/ Fill(t)
+\* While every other thread is idle the walk of a pusher is deterministic: it ends in the first vacant cell at or
+\* after the one it is looking at.  Trace validation of long chains takes that walk in one step (the single steps
+\* commute with another thread's PushBegin, which touches no cell, and no observable depends on cell numbers).
+FirstVacantFrom(i) == CHOOSE j \in i..MaxCells : cell[j] = 0 /\ \A h \in i..(j - 1) : cell[h] # 0
+Solo(t) == val[t] # 0 /\ PushImpl = "try_insert" /\ \A u \in Thread \ {t} : val[u] = 0
+TryInsertSolo(t) ==
+  /\ Solo(t) /\ \E j \in cur[t]..MaxCells : cell[j] = 0
+  /\ LET j == FirstVacantFrom(cur[t]) IN
+       /\ cell' = [cell EXCEPT ![j] = val[t]]
+       /\ refs' = [refs EXCEPT ![t] = Append(@, <<val[t], j>>)]
+       /\ cur' = [cur EXCEPT ![t] = j]
+  /\ val' = [val EXCEPT ![t] = 0] /\ UNCHANGED lost
 \* what a reference reads: the value in the cell it designates
 Reads(t, k) == cell[refs[t][k][2]]
 
